@@ -253,6 +253,44 @@ Definition tv_convert_str (_ : option str) (v : value) : option (list value) :=
   | _ => None
   end.
 
+
+(* --- RegexTransformation (values.py): SigmaString -> SigmaRegularExpression; ASCII --- *)
+(* re.escape: ()[]{}?*+-|^$\.&~# \t\n\r\v\f *)
+Definition re_special : str := [40; 41; 91; 93; 123; 125; 63; 42; 43; 45; 124; 94; 36; 92; 46; 38; 126; 35; 32; 9; 10; 13; 11; 12].
+Definition re_escape_c (c : char) : str := if mem c re_special then [c_bs; c] else [c].
+Definition is_alpha (c : char) : bool := is_upper c || is_lower c.
+Inductive remethod := RPlain | RFlag | RBrackets.
+Definition regex_part (m : remethod) (p : part) : str :=
+  match p with
+  | PStr x => flat_map (fun c => match m with
+                                 | RBrackets => if is_alpha c then [91; lower_c c; upper_c c; 93] else re_escape_c c
+                                 | _ => re_escape_c c
+                                 end) x
+  | PMulti => [46; 42]
+  | PSingle => [46]
+  | PPh _ => []        (* SigmaConfigurationError in the implementation: outside the model *)
+  end.
+Definition tv_regex (m : remethod) (_ : option str) : value -> option (list value) :=
+  on_str (fun c s => match s with
+                     | [] => Some [V (AStr c s)]          (* "empty string can not be converted": returned as it is *)
+                     | _ => Some [V (ARe (flat_map (regex_part m) s) (match m with RFlag => [105] | _ => [] end))]
+                     end).
+
+(* --- ConvertTypeTransformation target_type = num: SigmaNumber(str(val)); Python's int()/float() reading of
+       the plain form is an oracle (finite table plain form -> printed number; absent: SigmaValueError,
+       outside the model) --- *)
+Definition str_to_num (tbl : list (str * str)) (a : aval) : aval :=
+  match a with
+  | AStr _ s => match find (fun p => str_eqb (fst p) (to_plain false s)) tbl with Some p => ANum (snd p) | None => a end
+  | _ => a
+  end.
+Definition tv_convert_num (tbl : list (str * str)) (_ : option str) (v : value) : option (list value) :=
+  match v with
+  | V (AStr c s) => Some [V (str_to_num tbl (AStr c s))]
+  | VExp l => Some [VExp (map (str_to_num tbl) l)]
+  | _ => None
+  end.
+
 (* --- placeholder.py: SigmaString.replace_placeholders (types.py l.473) --- *)
 Record phsel := { ph_inc : option (list str); ph_exc : option (list str) }.
 Definition ph_handled (k : phsel) (n : str) : bool :=
@@ -290,6 +328,132 @@ Definition repl_vars (vars : list (str * list str)) (n : str) : list sstring :=
   | Some p => map (parse true) (snd p)
   | None => []
   end.
+
+
+(* QueryExpressionPlaceholderTransformation: a placeholder-only string becomes a query expression
+   (strings with a placeholder among other parts: SigmaValueError, outside the model) *)
+Definition tv_queryph (k : phsel) (expr : str) (mapping : list (str * str)) (_ : option str)
+  : value -> option (list value) :=
+  on_str (fun _ s =>
+    match s with
+    | [PPh n] => if ph_handled k n then
+                   Some [V (AQuery expr (match find (fun p => str_eqb (fst p) n) mapping with
+                                         | Some (_, (x :: _) as m) => m      (* mapping.get(name) or name *)
+                                         | _ => n end))]
+                 else None
+    | _ => None
+    end).
+
+(* ---------- HashesFieldsDetectionItemTransformation (values.py l.38-195) ---------- *)
+Fixpoint split_go (c : char) (s : str) (acc : str) : list str :=
+  match s with
+  | [] => [acc]
+  | x :: r => if N.eqb x c then acc :: split_go c r [] else split_go c r (acc ++ [x])
+  end.
+Definition split_on (c : char) (s : str) : list str := split_go c s [].      (* str.split(c) *)
+Fixpoint lstrip (cs : str) (s : str) : str :=
+  match s with x :: r => if mem x cs then lstrip cs r else s | [] => [] end.
+Definition strip (cs : str) (s : str) : str := rev (lstrip cs (rev (lstrip cs s))).
+Definition s_md5 : str := [77; 68; 53].
+Definition s_sha1 : str := [83; 72; 65; 49].
+Definition s_sha256 : str := [83; 72; 65; 50; 53; 54].
+Definition s_sha512 : str := [83; 72; 65; 53; 49; 50].
+Definition s_keyword : str := [107; 101; 121; 119; 111; 114; 100].
+Definition hash_by_len (n : nat) : str :=
+  if Nat.eqb n 32 then s_md5 else if Nat.eqb n 40 then s_sha1 else if Nat.eqb n 64 then s_sha256
+  else if Nat.eqb n 128 then s_sha512 else [].
+Record hcfg := mkH { h_valid : list str; h_prefix : str; h_drop : bool; h_fields : list str }.
+(* _extract_hash_algo_and_value *)
+Definition hash_extract (H : hcfg) (v : str) : str * str :=
+  let parts := if mem c_pipe v then split_on c_pipe v else split_on c_eq v in
+  let ah := match parts with
+            | [a; h] => (map upper_c (lstrip [c_star] a), strip [c_star; c_qm] h)
+            | p :: _ => let h := strip [c_star; c_qm] p in (hash_by_len (length h), h)
+            | [] => ([], [])
+            end in
+  if mem_str (fst ah) (h_valid H) then ah else ([], snd ah).
+(* algo_dict[field_name].append(hash_value): a dict keeps first-insertion order *)
+Fixpoint dict_add (k v : str) (d : list (str * list str)) : list (str * list str) :=
+  match d with
+  | [] => [(k, [v])]
+  | (k', vs) :: r => if str_eqb k k' then (k', vs ++ [v]) :: r else (k', vs) :: dict_add k v r
+  end.
+Definition dict_group (pairs : list (str * str)) : list (str * list str) :=
+  fold_left (fun d p => dict_add (fst p) (snd p) d) pairs [].
+Definition is_strv (v : value) : bool := match v with V (AStr _ _) => true | _ => false end.
+Definition nonempty (s : str) : bool := match s with [] => false | _ => true end.
+(* _parse_hash_values *)
+Definition hash_pairs (H : hcfg) (vs : list value) : list (str * str) :=
+  flat_map (fun v => match v with
+                     | V (AStr _ s) =>
+                         let ah := hash_extract H (to_plain false s) in
+                         if nonempty (fst ah) then [(h_prefix H ++ (if h_drop H then [] else fst ah), snd ah)] else []
+                     | _ => []
+                     end) vs.
+Definition hash_entry (i : ditem) (neg : bool) (g : str * list str) : ditem :=
+  mkI (if str_eqb (fst g) s_keyword then None else Some (fst g))
+      (map (fun h => V (AStr false (parse true h))) (snd g)) (i_all i) neg [].
+(* apply_detection_item + _create_new_detection_items (repaired: value linking and negation are kept, fix 0dde42a);
+   "no valid hash algorithm" / empty detection raise errors: outside the model *)
+Definition hashes_item (H : hcfg) (i : ditem) : rep :=
+  match i_field i with
+  | Some f =>
+      if mem_str f (h_fields H) && forallb is_strv (i_vals i) then
+        Repl (DD (map (fun g => DI (hash_entry i (i_neg i) g))
+                      (filter (fun g => nonempty (fst g)) (dict_group (hash_pairs H (i_vals i)))))
+                 (xorb (i_all i) (i_neg i)))
+      else Keep
+  | None => Keep
+  end.
+
+(* ---------- ExtractFieldsTransformation (values.py): re.match with named groups is an oracle
+   (table plain form -> None | groupdict), Python's int()/float() reading too ---------- *)
+Record xcfg := mkX {
+  x_prefix : option str;                                    (* field_prefix (None also for "") *)
+  x_preserve : bool;                                        (* preserve_unmatched *)
+  x_tbl : list (str * option (list (str * option str)));    (* plain form -> match.groupdict() *)
+  x_num : list (str * str)                                  (* captured text -> printed number *)
+}.
+Definition s_null : str := [110; 117; 108; 108].
+Definition s_none : str := [110; 111; 110; 101].
+(* _convert_value *)
+Definition extract_conv (X : xcfg) (v : str) : aval :=
+  let lv := map lower_c v in
+  if str_eqb lv s_null || str_eqb lv s_none || negb (nonempty v) then ANull
+  else if negb (str_eqb v [48]) && prefixb [48] v then AStr false (parse true v)
+  else match find (fun p => str_eqb (fst p) v) (x_num X) with
+       | Some p => ANum (snd p)
+       | None => AStr false (parse true v)
+       end.
+Definition extract_fname (X : xcfg) (g : str) : str :=
+  match x_prefix X with Some p => p ++ [c_dot] ++ g | None => g end.
+Definition extract_group_items (X : xcfg) (groups : list (str * option str)) : list ditem :=
+  flat_map (fun g => match snd g with
+                     | Some gv => if nonempty gv then [mkI (Some (extract_fname X (fst g))) [V (extract_conv X gv)] false false []] else []
+                     | None => []
+                     end) groups.
+Definition extract_lookup (X : xcfg) (s : sstring) : option (list (str * option str)) :=
+  match find (fun p => str_eqb (fst p) (to_plain false s)) (x_tbl X) with Some p => snd p | None => None end.
+Definition extract_dets (X : xcfg) (i : ditem) : list det :=
+  flat_map (fun v => match v with
+                     | V (AStr _ s) =>
+                         match extract_lookup X s with
+                         | Some groups => match extract_group_items X groups with
+                                          | [] => []
+                                          | items => [DD (map DI items) true]
+                                          end
+                         | None => if x_preserve X then [DI (mkI (i_field i) [v] false false [])] else []
+                         end
+                     | _ => []
+                     end) (i_vals i).
+Definition extract_item (X : xcfg) (i : ditem) : rep :=
+  if forallb is_strv (i_vals i) then
+    match extract_dets X i with
+    | [] => Keep
+    | [x] => Repl x
+    | l => Repl (DD l (i_all i))
+    end
+  else Keep.
 
 (* ---------- DropDetectionItemTransformation ---------- *)
 Definition drop_item (_ : ditem) : rep := Delete.
@@ -345,6 +509,11 @@ Inductive tspec :=
 | TConvertStr
 | TWildPh (k : phsel)
 | TValuePh (k : phsel) (vars : list (str * list str))
+| TRegex (m : remethod)
+| TConvertNum (tbl : list (str * str))
+| TQueryPh (k : phsel) (expr : str) (mapping : list (str * str))
+| THashes (H : hcfg)
+| TExtract (X : xcfg)
 | TNoop.                                         (* set_state, change_logsource, add_field ...: no effect on detections *)
 
 Definition tbl_sub (tbl : list (str * str)) (s : str) : str :=
@@ -386,6 +555,11 @@ Definition apply_tspec (c : conds) (t : tspec) (r : rule) : rule :=
   | TConvertStr => apply_values c tv_convert_str r
   | TWildPh k => apply_values c (tv_placeholder k repl_wild) r
   | TValuePh k vars => apply_values c (tv_placeholder k (repl_vars vars)) r
+  | TRegex m => apply_values c (tv_regex m) r
+  | TConvertNum tbl => apply_values c (tv_convert_num tbl) r
+  | TQueryPh k e m => apply_values c (tv_queryph k e m) r
+  | THashes H => map_dets (walk_top (marked (c_id c) (gated (im_of c) (hashes_item H)))) r
+  | TExtract X => map_dets (walk_top (marked (c_id c) (gated (im_of c) (extract_item X)))) r
   | TNoop => r
   end.
 
